@@ -441,6 +441,9 @@ _unlocked_constants = {}
 def _copied_while_unlocked(source, new):
     copies = _unlocked_constants.get(id(source))
     if copies is not None:
+        # (a Parameter object made from the unlocked one for the same owner,
+        # its instances or its subclasses: unlocked, and locked again, with it)
+        object.__setattr__(new, 'constant', False)
         copies.append(new)
         _unlocked_constants[id(new)] = copies
 
@@ -1890,6 +1893,11 @@ class Parameter(_ParameterBase):
         state = {slot: getattr(self, slot) for slot in self.__class__._all_slots_}
         if object.__getattribute__(self, 'default') is _follows_class_default:
             state['default'] = _follows_class_default
+        if id(self) in _unlocked_constants:
+            # temporarily unlocked by edit_constant: the lock is lifted for
+            # the object the block was opened on, not for a copy or pickle
+            # of it taken meanwhile (which no block would lock again)
+            state['constant'] = True
         return state
 
     def __setstate__(self,state):
